@@ -34,6 +34,18 @@ def case_condition(R, D, diag, sorted_b, hist=False):
                     marg = normal_logpdf(xb[n:n + 1], p.mu[r][b], p.Sigma[r][np.ix_(b, b)])[0]
                     exp[r * N + n, t] = joint - marg
         fail_if(fails, PROPERTY, "condition_on", "p(x_a|x_b) p(x_b) != p(x)", ev, exp, params=params)
+        # the conditional evaluated through __call__, at all points and at a single point (shape [1, |b|])
+        pc = m.condition_on_x(c, xbr, via_call=True)
+        if m.regs.get(pc) is not None:
+            fail_if(fails, PROPERTY, "condition_on:__call__", "cond(x_b) p(x_b) != p(x) through __call__", np.asarray(m.regs[m.evalln(pc, xar)]), exp, params=params)
+        else:
+            fails.append(failure(PROPERTY, "condition_on:__call__", f"raised: {m.impl[-1][1:]}", params=params))
+        p1 = m.condition_on_x(c, m.arr(xb[:1]), via_call=True)
+        if m.regs.get(p1) is not None:
+            fail_if(fails, PROPERTY, "condition_on:__call__:single-point", "cond(x_b) p(x_b) != p(x) for a single conditioning point",
+                    np.asarray(m.regs[m.evalln(p1, xar)]), exp[[r * N for r in range(R)]], params=params)
+        else:
+            fails.append(failure(PROPERTY, "condition_on:__call__:single-point", f"raised: {m.impl[-1][1:]}", params=params))
         # conditional covariance = Schur complement of the covariance
         C = m.regs[c]
         for r in range(R):
